@@ -44,6 +44,15 @@ def propagate_viability_from_node(node: AttackGraphNode) -> None:
         if child.is_viable != original_value:
             propagate_viability_from_node(child)
 
+def _has_ttc_distribution(node: AttackGraphNode) -> bool:
+    """
+    Return True if the node has a TTC probability distribution associated
+    with it (anything other than the Enabled/Disabled pseudo-distributions).
+    Such a node always counts as necessary for its children.
+    """
+    return bool(node.ttc) and 'name' in node.ttc and \
+        node.ttc['name'] not in ['Enabled', 'Disabled']
+
 def propagate_necessity_from_node(node: AttackGraphNode) -> None:
     """
     Arguments:
@@ -72,7 +81,10 @@ def propagate_necessity_from_node(node: AttackGraphNode) -> None:
             # parent does not read its own, already reset, status.
             is_necessary = False
             for parent in child.parents:
-                is_necessary = is_necessary or parent.is_necessary
+                # A parent with a TTC distribution does not propagate its
+                # unnecessary state, so it counts as necessary here too.
+                is_necessary = is_necessary or parent.is_necessary or \
+                    _has_ttc_distribution(parent)
             child.is_necessary = is_necessary
 
         # TODO: Update TTC for child attack step before if it is not necessary
